@@ -27,7 +27,7 @@ import (
 type config struct {
 	Repo      string            `json:"repo"`
 	Out       string            `json:"out"`
-	Packages  []string          `json:"packages"` // relative dirs, e.g. "internal/executor"
+	Packages  []string          `json:"packages"`  // relative dirs, e.g. "internal/executor"
 	Pointcuts []string          `json:"pointcuts"` // "pkgdir:FuncName" or "pkgdir:Recv.Method"
 	Base      map[string]string `json:"base"`
 	Options   map[string]any    `json:"options"`
